@@ -52,6 +52,7 @@ type world struct {
 	gkeys   map[string]*keys.PrivateKey // group name -> key
 	gnames  map[string]string           // pubkey hex -> group name
 	scripts map[string][]byte           // "E", "D"
+	pubs    map[string][]byte           // key accounts: name -> compressed public key
 	fakeBlk *block.Block
 }
 
@@ -86,8 +87,10 @@ func newWorld(t testing.TB) *world {
 	reg("GAS", w.gas)
 	reg("Z", util.Uint160{})
 	reg("N", hash.Hash160([]byte("verif-c15-no-such-contract")))
+	w.pubs = map[string][]byte{}
 	for _, n := range []string{"S", "P", "T", "X"} {
 		reg(n, detKey("account-"+n).GetScriptHash())
+		w.pubs[n] = detKey("account-" + n).PublicKey().Bytes()
 	}
 	sink := hash.Hash160([]byte("verif-c15-sink-account"))
 	w.scripts["E"] = blob('E', w.gas, sink)
@@ -203,8 +206,23 @@ func (w *world) parseChain(id string) (*chainPlan, error) {
 
 // check is one witness check performed by a probe frame.
 type check struct {
-	acc  util.Uint160
-	mode int // 0 System.Runtime.CheckWitness in the frame, 1 GAS.transfer(acc, acc, 0, null) from the frame
+	acc  []byte // 20-byte script hash, or (mode 0 only) the 33-byte public key of a key account
+	mode int    // 0 System.Runtime.CheckWitness in the frame, 1 GAS.transfer(acc, sink, 0, null) from the frame
+}
+
+// acct is the argument given to the witness check for an account: its script hash, or - keyed - the public
+// key when the account is a key account (System.Runtime.CheckWitness accepts both).
+func (w *world) acct(name string, keyed bool) []byte {
+	if keyed {
+		if k, ok := w.pubs[name]; ok {
+			return k
+		}
+	}
+	h, ok := w.hashes[name]
+	if !ok {
+		panic("unknown account " + name)
+	}
+	return h.BytesBE()
 }
 
 // buildPlan makes the plan stack item; checks[i] are the checks of probe frame i.
@@ -213,7 +231,7 @@ func (w *world) buildPlan(cp *chainPlan, checks [][]check) stackitem.Item {
 	for i := range cp.probe {
 		cks := make([]stackitem.Item, len(checks[i]))
 		for j, c := range checks[i] {
-			cks[j] = stackitem.NewArray([]stackitem.Item{stackitem.NewByteArray(c.acc.BytesBE()), stackitem.NewBigInteger(big.NewInt(int64(c.mode)))})
+			cks[j] = stackitem.NewArray([]stackitem.Item{stackitem.NewByteArray(c.acc), stackitem.NewBigInteger(big.NewInt(int64(c.mode)))})
 		}
 		kind, target, flags := 0, stackitem.Item(stackitem.Null{}), int64(callflag.All)
 		if i < len(cp.links) {
